@@ -472,7 +472,10 @@ class TPAnalysis:
                 th = evs(E, 'thread')
                 may = ord_ == '>' or neg
                 if th:
-                    forks8 = [c for c, val, how in P.decisions if how == 'fork']
+                    def _leaf(c_):
+                        while c_ is not None and c_.k in ('cast', 'paren') and c_.n('sub') is not None: c_ = c_.n('sub')
+                        return c_ is not None and not (c_.k == 'binop' and c_.op in ('&&', '||'))
+                    forks8 = [c for c, val, how in P.decisions if how == 'fork' and _leaf(c) and any((y.k == 'member' and y.name == 'm_maxThreadCount') or (y.k == 'call' and (y.calleeq or '').endswith('::getMaxThreadCount')) for y in c.walk())]
                     if not may and forks8:
                         self.add('TP.8', None, f'row {row}: a worker thread is created', th[0].site, f'the spawn depends on `{forks8[0].text()[:70]}`, which is not a comparison of the maximum with the size of m_pool: whether the bound is respected is not followed')
                     else:
